@@ -514,7 +514,7 @@ def run(prop, tier, sd, rep, clauses, modes):
                              'informational): %s' % (len(pdiff), nchk, pdiff[:8]))
         dnmax = 4 if quick else 5
         dcap = None if quick else int(os.environ.get('VERIF_DESIGN_CAP', '9000'))
-        dbyid, dprogs, dsigs, dstates, dtrans, ddropped = design.explore(w, prop, clauses, modes, signature, dnmax, sd, dcap)
+        dbyid, dprogs, dsigs, dstates, dtrans, ddropped = design.explore(w, prop, clauses, modes, signature, dnmax, sd, dcap, p_fall=0.2 if prop == 'C07' else 0.5)
         for sig, occ in sorted(dsigs.items()):
             if sig in real_sigs:
                 continue      # already decided on real executions
